@@ -20,7 +20,7 @@ ap.add_argument("--suite", action="store_true")
 a = ap.parse_args()
 pid = a.pid.upper()
 WT = "/var/tmp/slipwork/mut-" + pid
-ENV = dict(os.environ, GOFLAGS="-mod=mod", GOPROXY="off")
+ENV = dict(os.environ, GOFLAGS="-mod=mod", GOPROXY="off", BASELINE_GO_TIMEOUT="6m", BASELINE_TRIES="2")
 ENV.pop("GOTOOLCHAIN", None)
 
 
